@@ -1,9 +1,9 @@
 /-
 C17 — the two initialisations of Floyd–Warshall:
-  * as coded (`fwInit`: plain assignment `D[u][v] = D[v][u] = w`) — meets the hypotheses of
-    `fwLoop_correct` on graphs without self-loops and parallel edges;
-  * repaired (`fwEdgesFixed`: minimum over parallel edges, self-loops skipped) — meets them on
-    every valid multigraph.
+  * as originally coded (`fwEdgesOrig`: plain assignment `D[u][v] = D[v][u] = w`) — meets the
+    hypotheses of `fwLoop_correct` on graphs without self-loops and parallel edges;
+  * as coded now, after the fix in /repo (`fwEdges`: `if (u != v && w < D[u][v]) …`, i.e. minimum
+    over parallel edges, self-loops skipped) — meets them on every valid multigraph.
 -/
 import AdaptaVerif.Lemmas.ApspFW
 namespace AdaptaVerif.Lemmas.Apsp
@@ -73,39 +73,39 @@ theorem set_real {g : Graph} {D : Mat} (h : Real g D) {a b : Nat} {x : Rat} (hw 
     rw [Mat.get_set_ne D a b a' b' _ this] at hd
     exact h _ _ _ hd
 
-/-! ### initialisation as coded -/
+/-! ### initialisation as originally coded (before the fix) -/
 
-theorem fwEdges_cons (e : Nat × Nat × Rat) (rest : List (Nat × Nat × Rat)) (D : Mat) :
-    fwEdges (e :: rest) D = fwEdges rest ((D.set e.2.1 e.1 (some e.2.2)).set e.1 e.2.1 (some e.2.2)) := rfl
+theorem fwEdgesOrig_cons (e : Nat × Nat × Rat) (rest : List (Nat × Nat × Rat)) (D : Mat) :
+    fwEdgesOrig (e :: rest) D = fwEdgesOrig rest ((D.set e.2.1 e.1 (some e.2.2)).set e.1 e.2.1 (some e.2.2)) := rfl
 
-theorem fwEdges_WF {n : Nat} : ∀ (es : List (Nat × Nat × Rat)) (D : Mat), Mat.WF n D → Mat.WF n (fwEdges es D) := by
+theorem fwEdgesOrig_WF {n : Nat} : ∀ (es : List (Nat × Nat × Rat)) (D : Mat), Mat.WF n D → Mat.WF n (fwEdgesOrig es D) := by
   intro es
   induction es with
   | nil => intro D h; exact h
-  | cons e rest ih => intro D h; rw [fwEdges_cons]; exact ih _ (Mat.WF_set (Mat.WF_set h _ _ _) _ _ _)
+  | cons e rest ih => intro D h; rw [fwEdgesOrig_cons]; exact ih _ (Mat.WF_set (Mat.WF_set h _ _ _) _ _ _)
 
-theorem fwEdges_real {g : Graph} (hv : Valid g) : ∀ (es : List (Nat × Nat × Rat)), (∀ e ∈ es, e ∈ g.edges) →
-    ∀ (D : Mat), Real g D → Real g (fwEdges es D) := by
+theorem fwEdgesOrig_real {g : Graph} (hv : Valid g) : ∀ (es : List (Nat × Nat × Rat)), (∀ e ∈ es, e ∈ g.edges) →
+    ∀ (D : Mat), Real g D → Real g (fwEdgesOrig es D) := by
   intro es
   induction es with
   | nil => intro _ D h; exact h
   | cons e rest ih =>
     intro hsub D h
-    rw [fwEdges_cons]
+    rw [fwEdgesOrig_cons]
     have hmem : e ∈ g.edges := hsub e (List.mem_cons_self)
     have he : HasEdge g e.1 e.2.1 e.2.2 := Or.inl hmem
     exact ih (fun e' he' => hsub e' (List.mem_cons_of_mem _ he')) _
       (set_real (set_real h (Walk.edge hv (HasEdge.symm he))) (Walk.edge hv he))
 
 /-- cells whose (unordered) index pair is not an edge of `es` keep their value -/
-theorem fwEdges_untouched (a b : Nat) : ∀ (es : List (Nat × Nat × Rat)) (D : Mat),
-    (∀ f ∈ es, ¬((f.1 = a ∧ f.2.1 = b) ∨ (f.1 = b ∧ f.2.1 = a))) → (fwEdges es D).get a b = D.get a b := by
+theorem fwEdgesOrig_untouched (a b : Nat) : ∀ (es : List (Nat × Nat × Rat)) (D : Mat),
+    (∀ f ∈ es, ¬((f.1 = a ∧ f.2.1 = b) ∨ (f.1 = b ∧ f.2.1 = a))) → (fwEdgesOrig es D).get a b = D.get a b := by
   intro es
   induction es with
   | nil => intro D _; rfl
   | cons f rest ih =>
     intro D h
-    rw [fwEdges_cons, ih _ (fun f' hf' => h f' (List.mem_cons_of_mem _ hf'))]
+    rw [fwEdgesOrig_cons, ih _ (fun f' hf' => h f' (List.mem_cons_of_mem _ hf'))]
     have hf := h f (List.mem_cons_self)
     have h1 : a ≠ f.1 ∨ b ≠ f.2.1 := by
       by_cases ha : a = f.1
@@ -118,29 +118,29 @@ theorem fwEdges_untouched (a b : Nat) : ∀ (es : List (Nat × Nat × Rat)) (D :
     rw [Mat.get_set_ne _ _ _ _ _ _ h1, Mat.get_set_ne _ _ _ _ _ _ h2]
 
 /-- without parallel edges every edge's weight survives in both cells -/
-theorem fwEdges_edges {n : Nat} : ∀ (es : List (Nat × Nat × Rat)) (D : Mat), Mat.WF n D →
+theorem fwEdgesOrig_edges {n : Nat} : ∀ (es : List (Nat × Nat × Rat)) (D : Mat), Mat.WF n D →
     (∀ e ∈ es, e.1 < n ∧ e.2.1 < n) → es.Pairwise (fun e f => ¬ SameEnds e f) →
-    ∀ e ∈ es, (fwEdges es D).get e.1 e.2.1 = some e.2.2 ∧ (fwEdges es D).get e.2.1 e.1 = some e.2.2 := by
+    ∀ e ∈ es, (fwEdgesOrig es D).get e.1 e.2.1 = some e.2.2 ∧ (fwEdgesOrig es D).get e.2.1 e.1 = some e.2.2 := by
   intro es
   induction es with
   | nil => intro D _ _ _ e he; cases he
   | cons f rest ih =>
     intro D hwf hlt hpw e he
-    rw [fwEdges_cons]
+    rw [fwEdgesOrig_cons]
     have hwf1 : Mat.WF n (D.set f.2.1 f.1 (some f.2.2)) := Mat.WF_set hwf _ _ _
     have hwf2 : Mat.WF n ((D.set f.2.1 f.1 (some f.2.2)).set f.1 f.2.1 (some f.2.2)) := Mat.WF_set hwf1 _ _ _
     rw [List.pairwise_cons] at hpw
     rcases List.mem_cons.mp he with rfl | he'
     · have hb := hlt e (List.mem_cons_self)
       constructor
-      · rw [fwEdges_untouched e.1 e.2.1 rest _ (by
+      · rw [fwEdgesOrig_untouched e.1 e.2.1 rest _ (by
           intro f' hf' hc
           apply hpw.1 f' hf'
           rcases hc with ⟨h1, h2⟩ | ⟨h1, h2⟩
           · exact Or.inl ⟨h1.symm, h2.symm⟩
           · exact Or.inr ⟨h2.symm, h1.symm⟩)]
         exact Mat.get_set_eq _ hwf1 _ _ _ hb.1 hb.2
-      · rw [fwEdges_untouched e.2.1 e.1 rest _ (by
+      · rw [fwEdgesOrig_untouched e.2.1 e.1 rest _ (by
           intro f' hf' hc
           apply hpw.1 f' hf'
           rcases hc with ⟨h1, h2⟩ | ⟨h1, h2⟩
@@ -155,16 +155,15 @@ theorem fwEdges_edges {n : Nat} : ∀ (es : List (Nat × Nat × Rat)) (D : Mat),
           exact Mat.get_set_eq _ hwf _ _ _ hb.2 hb.1
     · exact ih _ hwf2 (fun e' he'' => hlt e' (List.mem_cons_of_mem _ he'')) hpw.2 e he'
 
-/-- the as-coded initial matrix meets the hypotheses of `fwLoop_correct` on simple graphs -/
-theorem fwInit_simple {g : Graph} (hv : Valid g) (hs : Simple g) :
-    Mat.WF g.n (fwInit g) ∧ Real g (fwInit g) ∧ (∀ i, i < g.n → leC (fwInit g) i i 0) ∧
-    (∀ i j w, HasEdge g i j w → leC (fwInit g) i j w) := by
+/-- the originally coded initial matrix meets the hypotheses of `fwLoop_correct` on simple graphs -/
+theorem fwInitOrig_simple {g : Graph} (hv : Valid g) (hs : Simple g) :
+    Mat.WF g.n (fwEdgesOrig g.edges (fwDiag g.n)) ∧ Real g (fwEdgesOrig g.edges (fwDiag g.n)) ∧ (∀ i, i < g.n → leC (fwEdgesOrig g.edges (fwDiag g.n)) i i 0) ∧
+    (∀ i j w, HasEdge g i j w → leC (fwEdgesOrig g.edges (fwDiag g.n)) i j w) := by
   have hd := fwDiag_inv g.n
-  refine ⟨fwEdges_WF _ _ hd.1, fwEdges_real hv _ (fun _ h => h) _ (fwDiag_real g), ?_, ?_⟩
+  refine ⟨fwEdgesOrig_WF _ _ hd.1, fwEdgesOrig_real hv _ (fun _ h => h) _ (fwDiag_real g), ?_, ?_⟩
   · intro i hi
     refine ⟨0, ?_, le_refl _⟩
-    unfold fwInit
-    rw [fwEdges_untouched i i g.edges _ (by
+    rw [fwEdgesOrig_untouched i i g.edges _ (by
       intro f hf hc
       apply hs.1 f hf
       rcases hc with ⟨h1, h2⟩ | ⟨h1, h2⟩ <;> rw [h1, h2])]
@@ -172,38 +171,38 @@ theorem fwInit_simple {g : Graph} (hv : Valid g) (hs : Simple g) :
   · intro i j w he
     have hlt : ∀ e ∈ g.edges, e.1 < g.n ∧ e.2.1 < g.n := fun e he => ⟨(hv e he).1, (hv e he).2.1⟩
     rcases he with he | he
-    · exact ⟨w, (fwEdges_edges g.edges _ hd.1 hlt hs.2 _ he).1, le_refl _⟩
-    · exact ⟨w, (fwEdges_edges g.edges _ hd.1 hlt hs.2 _ he).2, le_refl _⟩
+    · exact ⟨w, (fwEdgesOrig_edges g.edges _ hd.1 hlt hs.2 _ he).1, le_refl _⟩
+    · exact ⟨w, (fwEdgesOrig_edges g.edges _ hd.1 hlt hs.2 _ he).2, le_refl _⟩
 
-/-! ### repaired initialisation (minimum over parallel edges, self-loops skipped) -/
+/-! ### initialisation as coded now (minimum over parallel edges, self-loops skipped) -/
 
 def Sym (D : Mat) : Prop := ∀ a b, D.get a b = D.get b a
 
-theorem fwEdgesFixed_cons (e : Nat × Nat × Rat) (rest : List (Nat × Nat × Rat)) (D : Mat) :
-    fwEdgesFixed (e :: rest) D = fwEdgesFixed rest
-      (if e.1 = e.2.1 then D
-       else (D.set e.2.1 e.1 (omin (D.get e.1 e.2.1) (some e.2.2))).set e.1 e.2.1 (omin (D.get e.1 e.2.1) (some e.2.2))) := rfl
+theorem fwEdges_cons (e : Nat × Nat × Rat) (rest : List (Nat × Nat × Rat)) (D : Mat) :
+    fwEdges (e :: rest) D = fwEdges rest
+      (if e.1 ≠ e.2.1 ∧ gtD (D.get e.1 e.2.1) e.2.2 = true then
+        (D.set e.2.1 e.1 (some e.2.2)).set e.1 e.2.1 (some e.2.2)
+       else D) := rfl
 
-/-- everything the repaired edge pass has to keep -/
+/-- everything the edge pass has to keep -/
 structure FixInv (g : Graph) (D : Mat) : Prop where
   wf : Mat.WF g.n D
   real : Real g D
   sym : Sym D
 
 theorem fixStep_inv {g : Graph} (hv : Valid g) {D : Mat} (h : FixInv g D) {u v : Nat} {w : Rat}
-    (he : HasEdge g u v w) (huv : u ≠ v) :
-    let x := omin (D.get u v) (some w)
-    let D' := (D.set v u x).set u v x
+    (he : HasEdge g u v w) (huv : u ≠ v) (hg : gtD (D.get u v) w = true) :
+    let D' := (D.set v u (some w)).set u v (some w)
     FixInv g D' ∧ Mat.Le D' D ∧ leC D' u v w ∧ leC D' v u w := by
-  intro x D'
+  intro D'
   have hb := HasEdge.valid hv he
-  have hwf1 : Mat.WF g.n (D.set v u x) := Mat.WF_set h.wf _ _ _
+  have hwf1 : Mat.WF g.n (D.set v u (some w)) := Mat.WF_set h.wf _ _ _
   have hwf2 : Mat.WF g.n D' := Mat.WF_set hwf1 _ _ _
-  have huvget : D'.get u v = x := Mat.get_set_eq _ hwf1 u v x hb.1 hb.2.1
-  have hvuget : D'.get v u = x := by
-    show ((D.set v u x).set u v x).get v u = x
+  have huvget : D'.get u v = some w := Mat.get_set_eq _ hwf1 u v _ hb.1 hb.2.1
+  have hvuget : D'.get v u = some w := by
+    show ((D.set v u (some w)).set u v (some w)).get v u = some w
     rw [Mat.get_set_ne _ u v v u _ (Or.inl (Ne.symm huv))]
-    exact Mat.get_set_eq _ h.wf v u x hb.2.1 hb.1
+    exact Mat.get_set_eq _ h.wf v u _ hb.2.1 hb.1
   have hother : ∀ a b, ¬(a = u ∧ b = v) → ¬(a = v ∧ b = u) → D'.get a b = D.get a b := by
     intro a b h1 h2
     have n1 : a ≠ u ∨ b ≠ v := by
@@ -214,108 +213,108 @@ theorem fixStep_inv {g : Graph} (hv : Valid g) {D : Mat} (h : FixInv g D) {u v :
       by_cases ha : a = v
       · right; exact fun hb' => h2 ⟨ha, hb'⟩
       · left; exact ha
-    show ((D.set v u x).set u v x).get a b = D.get a b
+    show ((D.set v u (some w)).set u v (some w)).get a b = D.get a b
     rw [Mat.get_set_ne _ u v a b _ n1, Mat.get_set_ne _ v u a b _ n2]
-  -- the new value is realised by a walk u → v
-  have hxwalk : ∀ d, x = some d → Walk g u v d := by
-    intro d hd
-    rcases omin_cases (D.get u v) (some w) with e | e
-    · exact h.real u v d (by rw [← e]; exact hd)
-    · have : some w = some d := by rw [← e]; exact hd
-      injection this with this
-      rw [← this]; exact Walk.edge hv he
+  -- the overwritten value was larger than `w`
+  have hold : ∀ d c, D.get u v = some d → d ≤ c → w ≤ c := by
+    intro d c hd hdc
+    rw [hd, gtD_some] at hg
+    linarith
   refine ⟨⟨hwf2, ?_, ?_⟩, ?_, ?_, ?_⟩
   · intro a b d hd
     by_cases h1 : a = u ∧ b = v
-    · obtain ⟨rfl, rfl⟩ := h1
-      rw [huvget] at hd; exact hxwalk d hd
+    · rw [h1.1, h1.2, huvget] at hd
+      injection hd with hd
+      rw [h1.1, h1.2, ← hd]; exact Walk.edge hv he
     · by_cases h2 : a = v ∧ b = u
-      · obtain ⟨rfl, rfl⟩ := h2
-        rw [hvuget] at hd; exact Walk.reverse hv (hxwalk d hd)
+      · rw [h2.1, h2.2, hvuget] at hd
+        injection hd with hd
+        rw [h2.1, h2.2, ← hd]; exact Walk.edge hv (HasEdge.symm he)
       · rw [hother a b h1 h2] at hd; exact h.real a b d hd
   · intro a b
     by_cases h1 : a = u ∧ b = v
-    · obtain ⟨rfl, rfl⟩ := h1
-      rw [huvget, hvuget]
+    · rw [h1.1, h1.2, huvget, hvuget]
     · by_cases h2 : a = v ∧ b = u
-      · obtain ⟨rfl, rfl⟩ := h2
-        rw [huvget, hvuget]
+      · rw [h2.1, h2.2, huvget, hvuget]
       · rw [hother a b h1 h2, hother b a (fun h => h2 ⟨h.2, h.1⟩) (fun h => h1 ⟨h.2, h.1⟩)]
         exact h.sym a b
   · intro a b c hc
+    obtain ⟨d, hd, hdc⟩ := hc
     by_cases h1 : a = u ∧ b = v
-    · obtain ⟨rfl, rfl⟩ := h1
-      obtain ⟨d, hd, hdc⟩ := hc
-      obtain ⟨z, hz, hzc⟩ := omin_le_left (b := some w) hd hdc
-      exact ⟨z, by rw [huvget]; exact hz, hzc⟩
+    · rw [h1.1, h1.2] at hd ⊢
+      exact ⟨w, huvget, hold d c hd hdc⟩
     · by_cases h2 : a = v ∧ b = u
-      · obtain ⟨rfl, rfl⟩ := h2
-        obtain ⟨d, hd, hdc⟩ := hc
+      · rw [h2.1, h2.2] at hd ⊢
         rw [h.sym] at hd
-        obtain ⟨z, hz, hzc⟩ := omin_le_left (b := some w) hd hdc
-        exact ⟨z, by rw [hvuget]; exact hz, hzc⟩
-      · obtain ⟨d, hd, hdc⟩ := hc
-        exact ⟨d, by rw [hother a b h1 h2]; exact hd, hdc⟩
-  · obtain ⟨z, hz, hzc⟩ := omin_le_right (a := D.get u v) (b := some w) rfl (le_refl w)
-    exact ⟨z, by rw [huvget]; exact hz, hzc⟩
-  · obtain ⟨z, hz, hzc⟩ := omin_le_right (a := D.get u v) (b := some w) rfl (le_refl w)
-    exact ⟨z, by rw [hvuget]; exact hz, hzc⟩
+        exact ⟨w, hvuget, hold d c hd hdc⟩
+      · exact ⟨d, by rw [hother a b h1 h2]; exact hd, hdc⟩
+  · exact ⟨w, huvget, le_refl _⟩
+  · exact ⟨w, hvuget, le_refl _⟩
 
-theorem fwEdgesFixed_inv {g : Graph} (hv : Valid g) : ∀ (es : List (Nat × Nat × Rat)), (∀ e ∈ es, e ∈ g.edges) →
+theorem fwEdges_inv {g : Graph} (hv : Valid g) : ∀ (es : List (Nat × Nat × Rat)), (∀ e ∈ es, e ∈ g.edges) →
     ∀ (D : Mat), FixInv g D →
-      FixInv g (fwEdgesFixed es D) ∧ Mat.Le (fwEdgesFixed es D) D ∧
-      (∀ e ∈ es, e.1 ≠ e.2.1 → leC (fwEdgesFixed es D) e.1 e.2.1 e.2.2 ∧ leC (fwEdgesFixed es D) e.2.1 e.1 e.2.2) := by
+      FixInv g (fwEdges es D) ∧ Mat.Le (fwEdges es D) D ∧
+      (∀ e ∈ es, e.1 ≠ e.2.1 → leC (fwEdges es D) e.1 e.2.1 e.2.2 ∧ leC (fwEdges es D) e.2.1 e.1 e.2.2) := by
   intro es
   induction es with
   | nil => intro _ D h; exact ⟨h, Mat.Le.refl _, fun e he => by cases he⟩
   | cons f rest ih =>
     intro hsub D h
-    rw [fwEdgesFixed_cons]
+    rw [fwEdges_cons]
     have hsub' : ∀ e ∈ rest, e ∈ g.edges := fun e' he' => hsub e' (List.mem_cons_of_mem _ he')
-    by_cases hloop : f.1 = f.2.1
-    · rw [if_pos hloop]
-      obtain ⟨i1, i2, i3⟩ := ih hsub' D h
-      refine ⟨i1, i2, ?_⟩
-      intro e he hne
-      rcases List.mem_cons.mp he with rfl | he'
-      · exact absurd hloop hne
-      · exact i3 e he' hne
-    · rw [if_neg hloop]
+    by_cases hc : f.1 ≠ f.2.1 ∧ gtD (D.get f.1 f.2.1) f.2.2 = true
+    · rw [if_pos hc]
       have hef : HasEdge g f.1 f.2.1 f.2.2 := Or.inl (hsub f (List.mem_cons_self))
-      obtain ⟨s1, s2, s3, s4⟩ := fixStep_inv hv h hef hloop
+      obtain ⟨s1, s2, s3, s4⟩ := fixStep_inv hv h hef hc.1 hc.2
       obtain ⟨i1, i2, i3⟩ := ih hsub' _ s1
       refine ⟨i1, Mat.Le.trans i2 s2, ?_⟩
       intro e he hne
       rcases List.mem_cons.mp he with rfl | he'
       · exact ⟨i2 _ _ _ s3, i2 _ _ _ s4⟩
       · exact i3 e he' hne
+    · rw [if_neg hc]
+      obtain ⟨i1, i2, i3⟩ := ih hsub' D h
+      refine ⟨i1, i2, ?_⟩
+      intro e he hne
+      rcases List.mem_cons.mp he with rfl | he'
+      · -- not overwritten: the stored value is already `≤ w`
+        have hng : ¬ gtD (D.get e.1 e.2.1) e.2.2 = true := fun hg => hc ⟨hne, hg⟩
+        cases hd : D.get e.1 e.2.1 with
+        | none => rw [hd] at hng; exact absurd rfl hng
+        | some b =>
+          rw [hd, gtD_some] at hng
+          have hle : b ≤ e.2.2 := not_lt.mp hng
+          exact ⟨i2 _ _ _ ⟨b, hd, hle⟩, i2 _ _ _ ⟨b, by rw [h.sym]; exact hd, hle⟩⟩
+      · exact i3 e he' hne
 
-/-- the repaired initial matrix meets the hypotheses of `fwLoop_correct` on every valid multigraph -/
-theorem fwInitFixed_ok {g : Graph} (hv : Valid g) :
-    let D₀ := fwEdgesFixed g.edges (fwDiag g.n)
-    Mat.WF g.n D₀ ∧ Real g D₀ ∧ (∀ i, i < g.n → leC D₀ i i 0) ∧ (∀ i j w, HasEdge g i j w → leC D₀ i j w) := by
-  intro D₀
+/-- the initial matrix of the current code meets the hypotheses of `fwLoop_correct` on every
+    valid multigraph -/
+theorem fwInit_ok {g : Graph} (hv : Valid g) :
+    Mat.WF g.n (fwInit g) ∧ Real g (fwInit g) ∧ (∀ i, i < g.n → leC (fwInit g) i i 0) ∧
+      (∀ i j w, HasEdge g i j w → leC (fwInit g) i j w) := by
   have hd := fwDiag_inv g.n
   have hsym : Sym (fwDiag g.n) := by
     intro a b
     cases h1 : (fwDiag g.n).get a b with
     | some d =>
-      obtain ⟨rfl, _, _⟩ := hd.2.2 a b d h1
+      have := (hd.2.2 a b d h1).1
+      rw [← this] at h1 ⊢
       exact h1.symm
     | none =>
       cases h2 : (fwDiag g.n).get b a with
       | none => rfl
       | some d =>
-        obtain ⟨rfl, _, _⟩ := hd.2.2 b a d h2
-        rw [h1] at h2; cases h2
+        have := (hd.2.2 b a d h2).1
+        rw [this] at h2
+        rw [this, h2] at h1; cases h1
   have h0 : FixInv g (fwDiag g.n) := ⟨hd.1, fwDiag_real g, hsym⟩
-  obtain ⟨i1, i2, i3⟩ := fwEdgesFixed_inv hv g.edges (fun _ h => h) _ h0
-  have hdiag : ∀ i, i < g.n → leC D₀ i i 0 := fun i hi => i2 _ _ _ ⟨0, hd.2.1 i hi, le_refl _⟩
+  obtain ⟨i1, i2, i3⟩ := fwEdges_inv hv g.edges (fun _ h => h) _ h0
+  have hdiag : ∀ i, i < g.n → leC (fwInit g) i i 0 := fun i hi => i2 _ _ _ ⟨0, hd.2.1 i hi, le_refl _⟩
   refine ⟨i1.wf, i1.real, hdiag, ?_⟩
   intro i j w he
   have hb := HasEdge.valid hv he
   by_cases hij : i = j
-  · subst hij
+  · rw [← hij]
     exact (hdiag i hb.1).mono hb.2.2
   · rcases he with he | he
     · exact (i3 _ he hij).1
